@@ -41,15 +41,29 @@ type Arrival struct {
 	Seed uint16 `json:"seed,omitempty"` // varies garbage bytes / foreign roots
 }
 
-type Prog struct {
-	N        int       `json:"n"`
-	Self     int       `json:"self"`
-	Role     string    `json:"role"` // attester proposer proposer-blinded voluntary-exit registration contribution
-	Direct   bool      `json:"direct,omitempty"`
-	Slot     uint64    `json:"slot"`
+// Duty is one further duty run on the SAME runner after the previous one finished or was abandoned.
+type Duty struct {
+	D        int       `json:"d"`               // slot = previous duty's slot + D (>= 1)
 	Value    string    `json:"value,omitempty"` // decided value: own | alt (consensus roles)
-	Faulty   []int     `json:"faulty"`          // <= f member ids, never Self
+	Net      string    `json:"net,omitempty"`   // broadcast fault armed when the duty starts: "" | fail (published, error returned) | lose (not published, error returned)
+	Cut      int       `json:"cut,omitempty"`   // > 0: only the first Cut arrivals are delivered (the duty is abandoned)
 	Arrivals []Arrival `json:"arrivals"`
+}
+
+type Prog struct {
+	N      int    `json:"n"`
+	Self   int    `json:"self"`
+	Role   string `json:"role"` // attester proposer proposer-blinded voluntary-exit registration contribution
+	Direct bool   `json:"direct,omitempty"`
+	Faulty []int  `json:"faulty"` // <= f member ids, never Self; the same members are faulty in every duty
+	// the first duty (inline, so that one-duty programs stay flat)
+	Slot     uint64    `json:"slot"`
+	Value    string    `json:"value,omitempty"`
+	Net      string    `json:"net,omitempty"`
+	Cut      int       `json:"cut,omitempty"`
+	Arrivals []Arrival `json:"arrivals"`
+	// further duties on the same runner
+	More []Duty `json:"more,omitempty"`
 }
 
 // Fault kinds. "good" is the member's correct share.
@@ -90,22 +104,41 @@ type pending struct {
 	id    spectypes.MessageID
 	typ   spectypes.PartialSigMsgType
 	slot  phase0.Slot
-	objs  []ssz.HashRoot // the decided duty objects, in the order a correct member lists them
+	objs  []ssz.HashRoot // the duty objects of THIS duty, in the order a correct member lists them
 	roots [][32]byte     // hash-tree-roots of objs
 	dt    phase0.DomainType
-	own   *spectypes.SSVMessage // the runner's own partial-signature broadcast
+	own   *spectypes.SSVMessage // the runner's own partial-signature broadcast (nil if it was lost)
+	// failedStart: a call of the construction phase returned an error (only possible with an injected
+	// broadcast fault). The "cannot prevent" clause is not demanded of such a duty; (a) and (b) are.
+	failedStart bool
+	subBase     int // len(BN.Submits) when the duty started
+	log         []string
 }
 
-// setup brings the runner to "partial signatures pending". Any error here is a harness error (panic).
-func setup(p Prog) *pending {
-	role := beaconRole(p.Role)
-	s := dutysim.New(dutysim.Config{N: p.N, Self: spectypes.OperatorID(p.Self), Blinded: p.Role == "proposer-blinded", Direct: p.Direct})
-	pd := &pending{sim: s, role: role, id: s.MsgID(role), slot: phase0.Slot(p.Slot)}
-	duty := s.Duty(role, pd.slot)
-	s.NextOp()
-	if err := s.StartDuty(duty); err != nil {
-		panic(fmt.Sprintf("setup: start duty: %v", err))
+// setup starts the duty for slot on the runner and brings it to "partial signatures pending". Without an
+// injected broadcast fault any error here is a harness error (panic).
+func setup(s *dutysim.Sim, role spectypes.BeaconRole, slot phase0.Slot, variant, net string) *pending {
+	pd := &pending{sim: s, role: role, id: s.MsgID(role), slot: slot, subBase: len(s.BN.Submits)}
+	s.Net.Drain()
+	switch net {
+	case "fail":
+		s.Net.FailNext = 1
+	case "lose":
+		s.Net.LoseNext = 1
 	}
+	check := func(what string, err error) {
+		if err == nil {
+			return
+		}
+		if net == "" {
+			panic(fmt.Sprintf("setup: %s: %v", what, err))
+		}
+		pd.failedStart = true
+		pd.log = append(pd.log, fmt.Sprintf("  setup: %s returned: %v", what, err))
+	}
+	duty := s.Duty(role, slot)
+	s.NextOp()
+	check("start duty", s.StartDuty(duty))
 	preType, hasPre := dutysim.PreType(role)
 	consensus := role != spectypes.BNRoleVoluntaryExit && role != spectypes.BNRoleValidatorRegistration
 	if !consensus {
@@ -115,12 +148,9 @@ func setup(p Prog) *pending {
 		if hasPre {
 			for _, id := range s.QuorumOthers() {
 				s.NextOp()
-				if err := s.Deliver(dutysim.PartialSSV(pd.id, s.PreMsg(id, duty))); err != nil {
-					panic(fmt.Sprintf("setup: pre-consensus from %d: %v", id, err))
-				}
+				check(fmt.Sprintf("pre-consensus from %d", id), s.Deliver(dutysim.PartialSSV(pd.id, s.PreMsg(id, duty))))
 			}
 		}
-		variant := p.Value
 		if variant != "alt" {
 			variant = "own"
 		}
@@ -129,15 +159,14 @@ func setup(p Prog) *pending {
 			panic(fmt.Sprintf("setup: value %s invalid: %v", variant, err))
 		}
 		s.NextOp()
-		if err := s.Deliver(dutysim.ConsensusSSV(pd.id, s.Cert(s.QuorumOthers(), pd.id[:], specqbft.Height(pd.slot), 1, value))); err != nil {
-			panic(fmt.Sprintf("setup: certificate: %v", err))
-		}
+		check("certificate", s.Deliver(dutysim.ConsensusSSV(pd.id, s.Cert(s.QuorumOthers(), pd.id[:], specqbft.Height(slot), 1, value))))
 		pd.typ = spectypes.PostConsensusPartialSig
 		var err error
 		if pd.objs, pd.dt, err = dutysim.PostObjects(role, value); err != nil {
 			panic(err)
 		}
 	}
+	s.Net.FailNext, s.Net.LoseNext = 0, 0
 	for _, o := range pd.objs {
 		r, _ := o.HashTreeRoot()
 		pd.roots = append(pd.roots, r)
@@ -147,15 +176,15 @@ func setup(p Prog) *pending {
 			continue
 		}
 		sm := &spectypes.SignedPartialSignatureMessage{}
-		if sm.Decode(m.Data) == nil && sm.Message.Type == pd.typ {
+		if sm.Decode(m.Data) == nil && sm.Message.Type == pd.typ && sm.Message.Slot == slot {
 			pd.own = m
 		}
 	}
-	if pd.own == nil {
+	if pd.own == nil && net == "" {
 		panic("setup: the runner did not broadcast its own partial signature")
 	}
-	if len(s.BN.Submits) != 0 {
-		panic("setup: something was submitted before any partial signature arrived")
+	if len(s.BN.Submits) != pd.subBase {
+		panic("setup: something was submitted before any partial signature of this duty arrived")
 	}
 	return pd
 }
@@ -208,6 +237,17 @@ func (pd *pending) build(a Arrival, kind string, n int) *spectypes.SSVMessage {
 	return dutysim.PartialSSV(pd.id, m)
 }
 
+// knownVE is the signature of the finding on the unchanged tree (see check.json): VoluntaryExitRunner keeps
+// the exit object in a runner field that executeDuty sets only after a successful broadcast.
+const knownVE = "C05:voluntary-exit-stale-or-nil-object-after-failed-start-broadcast"
+
+func slotDelta(d int) phase0.Slot {
+	if d < 1 {
+		d = 1
+	}
+	return phase0.Slot(d)
+}
+
 func run(p Prog) *prog.Result {
 	res := &prog.Result{}
 	f := fx.F(p.N)
@@ -217,139 +257,240 @@ func run(p Prog) *prog.Result {
 			faulty[x] = true
 		}
 	}
-	pd := setup(p)
-	s := pd.sim
+	role := beaconRole(p.Role)
+	s := dutysim.New(dutysim.Config{N: p.N, Self: spectypes.OperatorID(p.Self), Blinded: p.Role == "proposer-blinded", Direct: p.Direct})
 	defer s.Close()
 	quorum := 2*f + 1
+	duties := append([]Duty{{Value: p.Value, Net: p.Net, Cut: p.Cut, Arrivals: p.Arrivals}}, p.More...)
+	if len(duties) > 3 {
+		duties = duties[:3]
+	}
 
-	classes := map[string]bool{"role=" + p.Role: true, fmt.Sprintf("n=%d", p.N): true, fmt.Sprintf("faulty=%d", len(faulty)): true}
-	correctDelivered := map[int]bool{}
-	lastKind := map[int]string{}
-	reconFailed, failedBeforeSubmit := 0, false
+	classes := map[string]bool{"role=" + p.Role: true, fmt.Sprintf("n=%d", p.N): true, fmt.Sprintf("faulty=%d", len(faulty)): true, fmt.Sprintf("duties=%d", len(duties)): true}
 	var trace []string
+	ignored := map[int]bool{} // submissions already counted as the known finding
+	slot := phase0.Slot(p.Slot)
+	var earlier [][32]byte // object roots of earlier duties of this runner
 
-	judge := func(step int) *prog.Failure {
-		perObj := make([]int, len(pd.roots))
-		for _, sub := range s.BN.Submits {
-			obj := sub.Obj
-			if sub.Kind == "registration" {
-				reg := s.Registration(pd.slot)
-				if string(sub.PubKey) != string(s.KS.ValidatorPK.Serialize()) || sub.FeeRecipient != reg.FeeRecipient {
-					return prog.Failf("C05:submitted-other-object", "step %d: registration submitted for another key / fee recipient", step)
-				}
-				obj = reg
-			}
-			if obj == nil {
-				return prog.Failf("C05:submitted-other-object", "step %d: %s submitted without an object", step, sub.Kind)
-			}
-			r, _ := obj.HashTreeRoot()
-			idx := -1
-			for i, want := range pd.roots {
-				if want == r {
-					idx = i
-				}
-			}
-			if idx < 0 || sub.DomainType != pd.dt {
-				return prog.Failf("C05:submitted-other-object", "step %d: submitted %s object %x is not a decided object of this duty", step, sub.Kind, r[:6])
-			}
-			// (a) the signature verifies under the validator public key over the decided object
-			if !s.VerifyValidatorSig(sub.Sig[:], pd.objs[idx], pd.dt) {
-				return prog.Failf("C05:invalid-signature-submitted", "step %d (op %d): submitted %s carries a signature that does not verify under the validator key over the decided object\n%s", step, sub.Op, sub.Kind, strings.Join(trace, "\n"))
-			}
-			perObj[idx]++
+	for di, d := range duties {
+		if di > 0 {
+			slot += slotDelta(d.D)
 		}
-		// (b) at most one submission per decided object
-		for i, c := range perObj {
-			if c > 1 {
-				return prog.Failf("C05:submitted-twice", "step %d: decided object #%d submitted %d times\n%s", step, i, c, strings.Join(trace, "\n"))
-			}
+		pd := setup(s, role, slot, d.Value, d.Net)
+		trace = append(trace, fmt.Sprintf(" duty %d: slot %d epoch %d net=%q failed-start=%v", di, slot, dutysim.Network.EstimatedEpochAtSlot(slot), d.Net, pd.failedStart))
+		trace = append(trace, pd.log...)
+		if d.Net != "" {
+			classes["net="+d.Net] = true
 		}
-		// (c) cannot prevent: 2f+1 distinct correct members' shares delivered => every decided object submitted
-		if len(correctDelivered) >= quorum {
-			for i, c := range perObj {
-				if c != 1 {
-					sig := "C05:not-submitted-despite-correct-quorum"
-					if len(pd.roots) > 1 {
-						sig = "C05:multi-root-object-not-submitted-despite-correct-quorum"
+		if pd.failedStart {
+			classes["failed-start"] = true
+		}
+		correctDelivered := map[int]bool{}
+		lastKind := map[int]string{}
+		reconFailed, failedBeforeSubmit := 0, false
+
+		judge := func(step int) *prog.Failure {
+			perObj := make([]int, len(pd.roots))
+			for si := pd.subBase; si < len(s.BN.Submits); si++ {
+				if ignored[si] {
+					continue
+				}
+				sub := s.BN.Submits[si]
+				obj := sub.Obj
+				if sub.Kind == "registration" {
+					// the call carries key + fee recipient only; the object is the registration of the duty's epoch
+					reg := s.Registration(pd.slot)
+					if string(sub.PubKey) != string(s.KS.ValidatorPK.Serialize()) || sub.FeeRecipient != reg.FeeRecipient {
+						return prog.Failf("C05:submitted-other-object", "duty %d step %d: registration submitted for another key / fee recipient", di, step)
 					}
-					return prog.Failf(sig, "step %d: shares of %d distinct correct members (2f+1 = %d) have been delivered, but decided object #%d of %d has %d submissions (finished=%v)\n%s",
-						step, len(correctDelivered), quorum, i, len(pd.roots), c, !s.Runner(pd.role).HasRunningDuty(), strings.Join(trace, "\n"))
+					obj = reg
+				}
+				stale := ""
+				idx := -1
+				if obj == nil {
+					stale = "no object at all (nil message)"
+				} else {
+					r, _ := obj.HashTreeRoot()
+					for i, want := range pd.roots {
+						if want == r {
+							idx = i
+						}
+					}
+					if idx < 0 || sub.DomainType != pd.dt {
+						stale = fmt.Sprintf("object %x, which is not an object of this duty", r[:6])
+						for _, e := range earlier {
+							if e == r {
+								stale = fmt.Sprintf("object %x, which belongs to an EARLIER duty of this runner", r[:6])
+							}
+						}
+					}
+				}
+				if stale != "" && role == spectypes.BNRoleVoluntaryExit && pd.failedStart {
+					if prog.IsKnown(knownVE) || os.Getenv("VERIF_C05_ASSUME_KNOWN") != "" {
+						prog.KnownHit(curTest, knownVE)
+						classes["known:voluntary-exit-after-failed-start"] = true
+						ignored[si] = true
+						continue
+					}
+					return prog.Failf(knownVE, "duty %d step %d (op %d): after the start of this voluntary-exit duty returned a broadcast error, the runner submitted %s\n%s", di, step, sub.Op, stale, strings.Join(trace, "\n"))
+				}
+				// (a) the signature verifies under the validator public key over the SUBMITTED object ...
+				if obj == nil {
+					return prog.Failf("C05:submitted-nil-object", "duty %d step %d (op %d): %s submitted without an object\n%s", di, step, sub.Op, sub.Kind, strings.Join(trace, "\n"))
+				}
+				if !s.VerifyValidatorSig(sub.Sig[:], obj, sub.DomainType) {
+					return prog.Failf("C05:invalid-signature-submitted", "duty %d step %d (op %d): submitted %s carries a signature that does not verify under the validator key over the submitted object (%s)\n%s", di, step, sub.Op, sub.Kind, map[bool]string{true: "the object of this duty", false: stale}[stale == ""], strings.Join(trace, "\n"))
+				}
+				// ... and the submitted object is the one derived from THIS duty
+				if stale != "" {
+					return prog.Failf("C05:submitted-other-object", "duty %d step %d (op %d): submitted %s %s\n%s", di, step, sub.Op, sub.Kind, stale, strings.Join(trace, "\n"))
+				}
+				perObj[idx]++
+			}
+			// (b) at most one submission per duty object
+			for i, c := range perObj {
+				if c > 1 {
+					return prog.Failf("C05:submitted-twice", "duty %d step %d: duty object #%d submitted %d times\n%s", di, step, i, c, strings.Join(trace, "\n"))
 				}
 			}
+			// (c) cannot prevent: 2f+1 distinct correct members' shares delivered => every duty object submitted
+			if len(correctDelivered) >= quorum && !pd.failedStart {
+				for i, c := range perObj {
+					if c != 1 {
+						sig := "C05:not-submitted-despite-correct-quorum"
+						if len(pd.roots) > 1 {
+							sig = "C05:multi-root-object-not-submitted-despite-correct-quorum"
+						}
+						return prog.Failf(sig, "duty %d step %d: shares of %d distinct correct members (2f+1 = %d) have been delivered, but decided object #%d of %d has %d submissions (finished=%v)\n%s",
+							di, step, len(correctDelivered), quorum, i, len(pd.roots), c, !s.Runner(pd.role).HasRunningDuty(), strings.Join(trace, "\n"))
+					}
+				}
+			}
+			return nil
 		}
-		return nil
-	}
 
-	for step, a := range p.Arrivals {
-		if a.From < 1 || a.From > p.N {
-			continue
-		}
-		kind := "good"
-		var msg *spectypes.SSVMessage
-		switch {
-		case a.From == p.Self:
-			msg = pd.own
-		case faulty[a.From]:
-			kind = a.Kind
-			if kind == "" {
-				kind = "good"
+		for step, a := range d.Arrivals {
+			if d.Cut > 0 && step >= d.Cut {
+				classes["abandoned"] = true
+				break
 			}
-			msg = pd.build(a, kind, p.N)
-		default:
-			msg = pd.build(a, "good", p.N)
-		}
-		before := len(s.BN.Submits)
-		s.NextOp()
-		err := s.Deliver(msg)
-		if !faulty[a.From] {
-			correctDelivered[a.From] = true
-		} else {
-			classes["kind="+kind] = true
-			if prev, ok := lastKind[a.From]; ok {
-				switch {
-				case prev != "good" && kind == "good":
-					classes["seq=bad-then-good"] = true
-				case prev == "good" && kind != "good":
-					classes["seq=good-then-bad"] = true
-				case prev == "good" && kind == "good":
-					classes["seq=good-twice"] = true
-				default:
-					classes["seq=bad-twice"] = true
+			if a.From < 1 || a.From > p.N {
+				continue
+			}
+			kind := "good"
+			var msg *spectypes.SSVMessage
+			switch {
+			case a.From == p.Self:
+				msg = pd.own
+				if msg == nil {
+					continue // the own broadcast was lost
+				}
+			case faulty[a.From]:
+				kind = a.Kind
+				if kind == "" {
+					kind = "good"
+				}
+				msg = pd.build(a, kind, p.N)
+			default:
+				msg = pd.build(a, "good", p.N)
+			}
+			before := len(s.BN.Submits)
+			s.NextOp()
+			var err error
+			var panicked any
+			func() {
+				defer func() {
+					if r := recover(); r != nil {
+						if role != spectypes.BNRoleVoluntaryExit || !pd.failedStart {
+							panic(r) // not the known situation: prog.Guard reports it
+						}
+						panicked = r
+					}
+				}()
+				err = s.Deliver(msg)
+			}()
+			if panicked != nil {
+				// same root cause as the stale object: on a first exit duty whose start broadcast failed the
+				// runner field is still nil; the runner submits a SignedVoluntaryExit without message and then
+				// dereferences the nil object (voluntary_exit.go, the Debug log after the submission)
+				if prog.IsKnown(knownVE) || os.Getenv("VERIF_C05_ASSUME_KNOWN") != "" {
+					prog.KnownHit(curTest, knownVE)
+					classes["known:voluntary-exit-after-failed-start"] = true
+					classes["known:...nil-object-and-panic"] = true
+					for c := range classes {
+						res.Classes = append(res.Classes, c)
+					}
+					sort.Strings(res.Classes)
+					return res // the runner's state after a panic inside ProcessMessage is not worth exploring
+				}
+				res.Fail = prog.Failf(knownVE, "duty %d step %d: after the start of this voluntary-exit duty returned a broadcast error, ProcessPreConsensus panicked at the quorum: %v (submissions %d->%d; a nil-message exit was handed to the beacon node first)\n%s", di, step, panicked, before, len(s.BN.Submits), strings.Join(trace, "\n"))
+				return res
+			}
+			if !faulty[a.From] {
+				correctDelivered[a.From] = true
+			} else {
+				classes["kind="+kind] = true
+				if prev, ok := lastKind[a.From]; ok {
+					switch {
+					case prev != "good" && kind == "good":
+						classes["seq=bad-then-good"] = true
+					case prev == "good" && kind != "good":
+						classes["seq=good-then-bad"] = true
+					case prev == "good" && kind == "good":
+						classes["seq=good-twice"] = true
+					default:
+						classes["seq=bad-twice"] = true
+					}
+				}
+				lastKind[a.From] = kind
+			}
+			es := ""
+			if err != nil {
+				es = " err=" + err.Error()
+				if len(es) > 160 {
+					es = es[:160] + "…"
+				}
+				if strings.Contains(err.Error(), "quorum but it has invalid signatures") {
+					reconFailed++
+					if len(s.BN.Submits) == pd.subBase {
+						failedBeforeSubmit = true
+					}
 				}
 			}
-			lastKind[a.From] = kind
-		}
-		es := ""
-		if err != nil {
-			es = " err=" + err.Error()
-			if strings.Contains(err.Error(), "quorum but it has invalid signatures") {
-				reconFailed++
-				if len(s.BN.Submits) == 0 {
-					failedBeforeSubmit = true
-				}
+			trace = append(trace, fmt.Sprintf("  %2d: from %d%s %s mask=%d -> submits %d->%d%s", step, a.From, map[bool]string{true: " (faulty)"}[faulty[a.From]], kind, a.Mask, before, len(s.BN.Submits), es))
+			if fl := judge(step); fl != nil {
+				res.Fail = fl
+				return res
 			}
 		}
-		trace = append(trace, fmt.Sprintf("  %2d: from %d%s %s mask=%d -> submits %d->%d%s", step, a.From, map[bool]string{true: " (faulty)"}[faulty[a.From]], kind, a.Mask, before, len(s.BN.Submits), es))
-		if fl := judge(step); fl != nil {
-			res.Fail = fl
-			return res
-		}
-	}
 
-	submitted := len(s.BN.Submits) > 0
-	if submitted {
-		classes["submitted"] = true
+		submitted := len(s.BN.Submits) > pd.subBase
+		if submitted {
+			classes["submitted"] = true
+			if di > 0 {
+				classes["submitted-in-later-duty"] = true
+			}
+		} else if di+1 < len(duties) {
+			classes["next-duty-after-unfinished"] = true
+		}
+		if reconFailed > 0 {
+			classes["reconstruction-failed"] = true
+		}
+		if reconFailed > 1 {
+			classes["reconstruction-failed>1"] = true
+		}
+		if len(correctDelivered) >= quorum {
+			classes["correct-quorum-delivered"] = true
+		}
+		if submitted && failedBeforeSubmit {
+			res.NonTrivial = true
+		}
+		if di > 0 && len(earlier) > 0 && len(pd.roots) > 0 && earlier[len(earlier)-1] != pd.roots[0] {
+			classes["later-duty-has-different-object"] = true
+		}
+		earlier = append(earlier, pd.roots...)
 	}
-	if reconFailed > 0 {
-		classes["reconstruction-failed"] = true
-	}
-	if reconFailed > 1 {
-		classes["reconstruction-failed>1"] = true
-	}
-	if len(correctDelivered) >= quorum {
-		classes["correct-quorum-delivered"] = true
-	}
-	res.NonTrivial = submitted && failedBeforeSubmit
+	lastTrace = trace
 	for c := range classes {
 		res.Classes = append(res.Classes, c)
 	}
@@ -357,7 +498,58 @@ func run(p Prog) *prog.Result {
 	return res
 }
 
+// curTest names the property test in progress (known-finding counter); lastTrace is the trace of the most
+// recent run (TestShow). Tests run sequentially.
+var (
+	curTest   = "TestPropThresholdSubmission"
+	lastTrace []string
+)
+
 // ---- generator -------------------------------------------------------------------------------------
+
+func genArrivals(t *rapid.T, n int, isFaulty map[int]bool) []Arrival {
+	var items []Arrival
+	for i := 1; i <= n; i++ {
+		if isFaulty[i] {
+			k := rapid.IntRange(1, 3).Draw(t, "msgs-of-faulty")
+			for j := 0; j < k; j++ {
+				items = append(items, Arrival{From: i,
+					Kind: rapid.SampledFrom(faultKinds).Draw(t, "kind"),
+					Mask: uint8(rapid.IntRange(0, 7).Draw(t, "mask")),
+					Seed: uint16(rapid.IntRange(0, 1000).Draw(t, "seed"))})
+			}
+			continue
+		}
+		// a correct member: its share arrives once; rarely twice (network duplicate) or never (loss)
+		switch rapid.IntRange(0, 11).Draw(t, "copies") {
+		case 0:
+		case 1:
+			items = append(items, Arrival{From: i}, Arrival{From: i})
+		default:
+			items = append(items, Arrival{From: i})
+		}
+	}
+	// order: faulty-first prefixes make a failed reconstruction likely; otherwise any permutation
+	perm := rapid.Permutation(items).Draw(t, "order")
+	if rapid.IntRange(0, 2).Draw(t, "faulty-early") == 0 {
+		sort.SliceStable(perm, func(i, j int) bool {
+			bi, bj := isFaulty[perm[i].From] && perm[i].Kind != "good", isFaulty[perm[j].From] && perm[j].Kind != "good"
+			return bi && !bj
+		})
+	}
+	return perm
+}
+
+func genNet(t *rapid.T) string {
+	return rapid.SampledFrom([]string{"", "", "", "", "", "", "", "", "fail", "lose"}).Draw(t, "net")
+}
+
+func genCut(t *rapid.T, n int) int {
+	if n == 0 || rapid.IntRange(0, 4).Draw(t, "abandon") != 0 {
+		return 0
+	}
+	return rapid.IntRange(1, n).Draw(t, "cut")
+}
 
 func genProg(roleSet []string, sizes []int) func(t *rapid.T) Prog {
 	return func(t *rapid.T) Prog {
@@ -385,36 +577,22 @@ func genProg(roleSet []string, sizes []int) func(t *rapid.T) Prog {
 		for _, x := range p.Faulty {
 			isFaulty[x] = true
 		}
-		var items []Arrival
-		for i := 1; i <= p.N; i++ {
-			if isFaulty[i] {
-				k := rapid.IntRange(1, 3).Draw(t, "msgs-of-faulty")
-				for j := 0; j < k; j++ {
-					items = append(items, Arrival{From: i,
-						Kind: rapid.SampledFrom(faultKinds).Draw(t, "kind"),
-						Mask: uint8(rapid.IntRange(0, 7).Draw(t, "mask")),
-						Seed: uint16(rapid.IntRange(0, 1000).Draw(t, "seed"))})
-				}
-				continue
-			}
-			// a correct member: its share arrives once; rarely twice (network duplicate) or never (loss)
-			switch rapid.IntRange(0, 11).Draw(t, "copies") {
-			case 0:
-			case 1:
-				items = append(items, Arrival{From: i}, Arrival{From: i})
-			default:
-				items = append(items, Arrival{From: i})
-			}
+		p.Net = genNet(t)
+		p.Arrivals = genArrivals(t, p.N, isFaulty)
+		p.Cut = genCut(t, len(p.Arrivals))
+		// further duties on the same runner: the next slots for the per-slot roles, another (sometimes the
+		// same) epoch for voluntary exit and registration, whose objects are per epoch
+		deltas := []int{1, 1, 2, 3}
+		if p.Role == "voluntary-exit" || p.Role == "registration" {
+			deltas = []int{32, 32, 33, 40, 64, 1, 3}
 		}
-		// order: faulty-first prefixes make a failed reconstruction likely; otherwise any permutation
-		perm := rapid.Permutation(items).Draw(t, "order")
-		if rapid.IntRange(0, 2).Draw(t, "faulty-early") == 0 {
-			sort.SliceStable(perm, func(i, j int) bool {
-				bi, bj := isFaulty[perm[i].From] && perm[i].Kind != "good", isFaulty[perm[j].From] && perm[j].Kind != "good"
-				return bi && !bj
-			})
+		more := rapid.SampledFrom([]int{0, 0, 0, 1, 1, 1, 2}).Draw(t, "more")
+		for i := 0; i < more; i++ {
+			d := Duty{D: rapid.SampledFrom(deltas).Draw(t, "d"), Value: rapid.SampledFrom([]string{"own", "own", "alt"}).Draw(t, "value"), Net: genNet(t)}
+			d.Arrivals = genArrivals(t, p.N, isFaulty)
+			d.Cut = genCut(t, len(d.Arrivals))
+			p.More = append(p.More, d)
 		}
-		p.Arrivals = perm
 		return p
 	}
 }
@@ -422,12 +600,14 @@ func genProg(roleSet []string, sizes []int) func(t *rapid.T) Prog {
 var allSizes = []int{4, 7, 10, 13}
 
 func TestPropThresholdSubmission(t *testing.T) {
+	curTest = "TestPropThresholdSubmission"
 	prog.Check(t, "C05", "TestPropThresholdSubmission", genProg(roles, allSizes), run)
 }
 
 // The multi-root duty (sync-committee contribution: three decided objects, every message carries three
 // shares). DESIGN.md lists it as optional for C05; it is a separate test so that its verdict is separate.
 func TestPropThresholdSubmissionMultiRoot(t *testing.T) {
+	curTest = "TestPropThresholdSubmissionMultiRoot"
 	prog.Check(t, "C05", "TestPropThresholdSubmissionMultiRoot", genProg([]string{"contribution"}, allSizes), run)
 }
 
@@ -455,6 +635,6 @@ func TestShow(t *testing.T) {
 	if r.Fail != nil {
 		fmt.Printf("FAIL %s\n%s\n", r.Fail.Sig, r.Fail.Msg)
 	} else {
-		fmt.Printf("PASS nontrivial=%v classes=%v\n", r.NonTrivial, r.Classes)
+		fmt.Printf("PASS nontrivial=%v classes=%v\n%s\n", r.NonTrivial, r.Classes, strings.Join(lastTrace, "\n"))
 	}
 }
